@@ -484,6 +484,18 @@ func objectClone(in *object, out *object, clone *cloner) *object {
 		}
 	case argumentsObject:
 		out.value = value.clone(clone)
+	case ottoError:
+		if len(value.trace) > 0 {
+			trace := make([]frame, len(value.trace))
+			for index, frm := range value.trace {
+				if fn, ok := frm.fn.(*object); ok && fn != nil {
+					frm.fn = clone.object(fn)
+				}
+				trace[index] = frm
+			}
+			value.trace = trace
+		}
+		out.value = value
 	}
 
 	return out
